@@ -795,9 +795,43 @@ func PackageVarWrites(pkgs []*packages.Package) []*PkgVar {
 					}
 					counts[k][PkgVarSite{Method: fn, Kind: kind}]++
 				}
+				// alias: the variable itself (a map, slice, pointer or channel) is stored into a field, a literal or another
+				// variable — every later write through that copy of the reference is a write to the package-level value that
+				// no site rooted at the variable's name shows
+				alias := func(e ast.Expr) {
+					for {
+						pe, ok := e.(*ast.ParenExpr)
+						if !ok {
+							break
+						}
+						e = pe.X
+					}
+					id, ok := e.(*ast.Ident)
+					if !ok {
+						return
+					}
+					v := rootVar(id)
+					if v == nil {
+						return
+					}
+					switch v.Type().Underlying().(type) {
+					case *types.Map, *types.Slice, *types.Pointer, *types.Chan:
+						rec(v, "alias")
+					}
+				}
 				ast.Inspect(fd.Body, func(n ast.Node) bool {
 					switch x := n.(type) {
+					case *ast.CompositeLit:
+						for _, el := range x.Elts {
+							if kv, ok := el.(*ast.KeyValueExpr); ok {
+								el = kv.Value
+							}
+							alias(el)
+						}
 					case *ast.AssignStmt:
+						for _, rhs := range x.Rhs {
+							alias(rhs)
+						}
 						if x.Tok == token.DEFINE {
 							return true
 						}
